@@ -202,6 +202,22 @@ func init() {
 			return ret(st, Scalar{val}, Scalar{k}, Iface{Tid: etid, Box: eh})
 		},
 		"errors.New":                   errCtor,
+		// fmt.Sprintf(format, ...): an unknown string that starts with the literal text of a constant
+		// format up to its first verb (enough to know that "seatago%dpoint;" is not empty)
+		"fmt.Sprintf": func(fr *Frame, st *State, args []Value, sig *types.Signature) []Outcome {
+			r := Var(st.eng.fresh("sprintf"), SString)
+			if f, ok := args[0].(Scalar); ok && f.T.IsStr() {
+				lit := f.T.S
+				if i := strings.IndexByte(lit, '%'); i >= 0 {
+					lit = lit[:i]
+				}
+				if lit != "" {
+					st.assume(Eq(Substr(r, Int(0), Int(int64(len(lit)))), Str(lit)))
+					st.assume(Le(Int(int64(len(lit))), StrLen(r)))
+				}
+			}
+			return ret(st, Scalar{r})
+		},
 		// errors.Is(err, target): true when err is target itself, false for a nil err and a non-nil
 		// target, otherwise unknown (unwrapping chains are not modelled)
 		"errors.Is": func(fr *Frame, st *State, args []Value, sig *types.Signature) []Outcome {
